@@ -92,15 +92,34 @@ std::uint64_t probe(T v, char)
 }
 
 // building a setter argument of wrapper type W from a raw primitive value
+template<int N>
+struct prio : prio<N - 1>
+{
+};
+template<>
+struct prio<0>
+{
+};
 template<typename W, typename R>
-auto make(R raw, int) -> decltype(W{raw})
+auto make_impl(R raw, prio<2>) -> decltype(W{static_cast<typename W::value_type>(raw)})
+{
+    // through the wrapper's own value_type: the raw value has the schema's primitive type, the wrapper is whatever the generator chose
+    return W{static_cast<typename W::value_type>(raw)};
+}
+template<typename W, typename R>
+auto make_impl(R raw, prio<1>) -> decltype(W{raw})
 {
     return W{raw};
 }
 template<typename W, typename R, typename = typename std::enable_if<std::is_enum<W>::value>::type>
-W make(R raw, long)
+W make_impl(R raw, prio<0>)
 {
     return static_cast<W>(raw);
+}
+template<typename W, typename R>
+W make(R raw, int)
+{
+    return make_impl<W>(raw, prio<2>{});
 }
 // recording visitor for visit_children (C19): logs kind, schema id and value/address of every callback, stops at callback `stop_at`
 struct RecVisitor
